@@ -183,7 +183,7 @@ class PosePath3D(object):
                 self._poses_se3.append(self._poses_se3[j].dot(rel_poses[i]))
         else:
             self._poses_se3 = [np.dot(t, p) for p in self.poses_se3]
-        if not propagate and not lie.is_se3(t):
+        if not (right_mul and propagate) and not lie.is_se3(t):
             # E.g. Sim(3): the scale only applies to the positions,
             # the rotation blocks of the poses have to stay in SO(3).
             s = lie.sim3_scale(t)
